@@ -363,11 +363,11 @@ theorem drained_all_valid (s : BSt) (hs : CInv s) (hnw : s.registry.length < 2 ^
     rw [← e, hcr2]; exact hi
 
 /-- the logger clean-up leaves the registry, the contexts' validity and the actors alone -/
-theorem cleanupLoggers_frame (s : BSt) :
-    (cleanupLoggers s).registry = s.registry ∧ (core (cleanupLoggers s)).ths = (core s).ths ∧
-    (core (cleanupLoggers s)).actors = (core s).actors := by
+theorem cleanupLoggers_frame (inj : BSt → Nat → BSt) (hq : Quiet9 inj) (s : BSt) :
+    (cleanupLoggers inj s).registry = s.registry ∧ (core (cleanupLoggers inj s)).ths = (core s).ths ∧
+    (core (cleanupLoggers inj s)).actors = (core s).actors := by
   apply cleanupLoggers_pres (fun x => x.registry = s.registry ∧ (core x).ths = (core s).ths ∧
-    (core x).actors = (core s).actors)
+    (core x).actors = (core s).actors) inj hq
   · intro x hx
     have hc := core_allEmpty x
     have h1 : (core (allEmpty x).1).registry = (core x).registry := by rw [hc]; unfold Core.refresh; split <;> rfl
@@ -385,7 +385,7 @@ def idleState (inj : BSt → Nat → BSt) (s : BSt) : BSt :=
 
 theorem poll_idle_eq (inj : BSt → Nat → BSt) (s : BSt) (h0 : (populate inj s).2 = 0)
     (he : (allEmpty (idleState inj s)).2 = true) :
-    poll inj s = cleanupLoggers (cleanupContexts (allEmpty (idleState inj s)).1) := by
+    poll inj s = cleanupLoggers inj (cleanupContexts (allEmpty (idleState inj s)).1) := by
   unfold poll
   rcases hpe : populate inj s with ⟨s1, count⟩
   rw [hpe] at h0
@@ -397,7 +397,7 @@ theorem poll_idle_eq (inj : BSt → Nat → BSt) (s : BSt) (h0 : (populate inj s
 
 theorem CInv_idleState {inj : BSt → Nat → BSt} (hi : InjOK CInv inj) (s : BSt) (hs : CInv s) :
     CInv (idleState inj s) :=
-  checkFailures_ok CInv_closed hi _ (CInv_closed.flushSinks _ (hi _ 5 (populate_ok CInv_closed hi s hs)).1)
+  checkFailures_ok CInv_closed.toClosedB hi _ (CInv_closed.flushSinks _ (hi _ 5 (populate_ok CInv_closed.toClosedB hi s hs)).1)
 
 theorem CInv_fresh (s : BSt) (h1 : s.ths = []) (h2 : s.registry = []) (h3 : s.cache = []) (h4 : s.newFlag = false)
     (h5 : s.invalidCnt = 0) (h6 : s.actors = []) : CInv s := by
